@@ -185,7 +185,7 @@ def main():
         record('%s.SetBytes' % fname, ok, detail, (fname, 'SetBytes'))
 
     # MultiSelect: masked selection over a table, all table contents / widths up to the bound
-    eng = new_engine(prog, timeout_ms=60000)
+    eng = new_engine(prog, timeout_ms=60000 if not thorough else 600000)
     widths = [1, 15, 63] if not thorough else [1, 2, 15, 16, 31, 63, 64, 127]
     msbad = []
     for width in widths:
